@@ -1,0 +1,7 @@
+//go:build !verif
+
+package cache
+
+// verifOp marks a filesystem operation of the directory cache for the verification harness.
+// It does nothing in normal builds.
+func verifOp(op, path string) {}
